@@ -264,6 +264,28 @@ func (c *Ctx) ParFor(n int64, f func(w *W, i int64)) {
 	if n <= 0 {
 		return
 	}
+	if shardN > 1 {
+		// one shard of a multi-process run: this process takes chunks j with j mod N == k
+		chunk := n / int64(shardN*16)
+		if chunk < 1 {
+			chunk = 1
+		}
+		w := c.Worker()
+		defer w.Done()
+		for j, lo := int64(0), int64(0); lo < n; j, lo = j+1, lo+chunk {
+			if j%int64(shardN) != int64(shardK) {
+				continue
+			}
+			hi := lo + chunk
+			if hi > n {
+				hi = n
+			}
+			for i := lo; i < hi; i++ {
+				f(w, i)
+			}
+		}
+		return
+	}
 	nw := Workers()
 	chunk := n / int64(nw*16)
 	if chunk < 1 {
